@@ -30,7 +30,8 @@ def run(ctx):
     for cls in CLASSES:
         recv = scalar_overload(prog, cls, 'Receive')
         send = scalar_overload(prog, cls, 'Send')
-        results[cls] = (r13a(ctx, cls, recv), r13b(ctx, cls, send, recv), r13c(ctx, cls, recv), r13d(ctx, cls, recv), r13e(ctx, cls, send, recv))
+        results[cls] = (r13a(ctx, cls, recv), r13b(ctx, cls, send, recv), r13c(ctx, cls, recv), r13d(ctx, cls, recv), r13e(ctx, cls, send, recv),
+                        r13g(ctx, cls, recv))
     # R13f sibling agreement: both implementations satisfy the same set of rules
     ok = results[CLASSES[0]] == results[CLASSES[1]]
     (ctx.ok if ok else ctx.bad)('R13f', 'R13f:siblings', 'select and nonblock channel agree on every rule verdict' if ok else
@@ -202,6 +203,47 @@ def r13d(ctx, cls, f):
                 oka = True
     (ctx.ok if oka else ctx.bad)('R13d', key0 + ':alloc', 'link buffers are allocated with buf_in_size octets' if oka else 'link buffers are not allocated with buf_in_size', f)
     return okv and oka
+
+
+def r13g(ctx, cls, f):
+    """the initialisation vector is taken off the stream as soon as blklen octets have
+    *accumulated* in the link buffer: the guard of the removal compares blklen with the buffer
+    fill, and with nothing else (a guard on the size of the last read starves a trickling link)"""
+    a = ctx.analysis(f)
+    T = a.T
+    blk = T.mk('this', 'blklen')
+    key0 = 'R13g:' + cls
+    sites = []
+    for nid, ev in a.all_events('call'):
+        # memmove(buf, buf + blklen, n): the IV is removed from the front of the buffer
+        if ev[1] == 'memmove' and len(ev[2]) == 3:
+            src = T.node(ev[2][1])
+            if src[0] == 'op' and src[1] == '+' and blk in (src[2], src[3]):
+                sites.append((nid, ev))
+    if not sites:
+        ctx.bad('R13g', key0 + ':iv', 'removal of the initialisation vector from the link buffer not found (anchor changed)', f, nec=False)
+        return False
+    ok_all = True
+    for nid, ev in sites:
+        st = a.instate[nid]
+        fill = a.read(('e', ('m', 'buf_ptr'), '*'), st)
+        others = []
+        has = False
+        for fa in st.facts:
+            n = T.node(fa)
+            if n[0] == 'rel' and n[1] in ('<=', '<') and n[2] == blk:
+                rhs = n[3]
+                if rhs == fill:
+                    has = True
+                else:
+                    others.append(T.show(rhs, 3))
+        if has and not others:
+            ctx.ok('R13g', key0 + ':iv', 'the IV is consumed exactly when blklen octets have accumulated in the buffer', f, line=ev[3])
+        else:
+            ok_all = False
+            ctx.bad('R13g', key0 + ':iv', 'the IV is taken off the buffer under a guard that is not "buffer fill >= blklen"%s: a link whose reads are all shorter than the block length never starts delivering' % (
+                (' (guard on %s)' % ', '.join(others)) if others else ''), f, line=ev[3])
+    return ok_all
 
 
 def r13e(ctx, cls, send, recv):
